@@ -566,3 +566,58 @@ def r8(R):
                 key='first-match exit from scan loop')
     R.require(n >= 2, 'expected FileStorage._data_find and '
               'PackCopier._data_find')
+
+
+# ------------------------------------------------------------------ C07.R9
+@rule('C07.R9', 'the references of a kept revision are read from the record '
+      'that HOLDS its data: the backpointer chain is followed to its end',
+      props=['C06'], min_instances=1)
+def r9(R):
+    cls = R.prog.cls(GC)
+    f = R.method(cls, 'findrefs')
+    g, b, F = R.cfg(f, cls, max_depth=0)
+    R.instance('GC.findrefs')
+    seen = [0]
+
+    def edge(node, st, lab, tgt):
+        if lab in ('e', 'eb'):
+            return st
+        a = node.ast
+        if node.kind == 'stmt' and isinstance(a, ast.Assign) and any(
+                isinstance(t, ast.Name) for t in a.targets) and isinstance(
+                    a.value, ast.Call) and dotted(a.value.func) and dotted(
+                        a.value.func)[-1] == '_read_data_header':
+            return ('unknown', a.targets[0].id)
+        if node.kind == 'test' and lab in ('T', 'F') and st[1]:
+            for e, truth in implied_atoms(node.ast, lab):
+                if isinstance(e, ast.Attribute) and e.attr == 'back' and \
+                        isinstance(e.value, ast.Name) and \
+                        e.value.id == st[1]:
+                    return ('back' if truth else 'end', st[1])
+                # a record with data has no backpointer
+                if isinstance(e, ast.Attribute) and e.attr == 'plen' and \
+                        isinstance(e.value, ast.Name) and \
+                        e.value.id == st[1] and truth:
+                    return ('end', st[1])
+        return st
+
+    def at(node, st):
+        for op in F.ops(node):
+            if op.kind == 'call' and op.path and op.path[-1] == 'referencesf':
+                seen[0] += 1
+        if node.kind == 'return' and node.frame.parent is None and \
+                st[0] != 'end':
+            return Violation(
+                'findrefs answers (`%s`) for a record that was not '
+                'established to be the end of the backpointer chain (one '
+                'step is followed, not the chain): for a revision that '
+                'points back through two undo records no references are '
+                'found, and the objects it refers to are garbage-collected'
+                % ast.unparse(node.ast)[:50])
+        return st
+
+    vs, stats = explore(g, ('unknown', None), at=at, edge=edge)
+    R.count(stats)
+    R.require(seen[0] or vs, 'findrefs no longer calls referencesf')
+    for v in vs:
+        R.violation(v.node, v.message, g, v.path)
